@@ -387,11 +387,18 @@ def fit_world(args, scratch):
                 probs += rows.check_negloglike('%s/negloglike_comp%d.dat' % (out_dir, comp), uniq, kind, data, stats)
             if 'fisher' in stages:
                 probs += rows.check_codelen('%s/codelen_comp%d_deriv.dat' % (out_dir, comp), uniq, kind, data, stats)
-                nd = len(rows.read_table('%s/derivs_comp%d.dat' % (out_dir, comp)))
-                if nd != len(uniq):
-                    probs.append(('rows', 'derivs', nd, len(uniq)))
+                probs += rows.check_derivs('%s/derivs_comp%d.dat' % (out_dir, comp), '%s/codelen_comp%d_deriv.dat' % (out_dir, comp), uniq, stats)
             if 'match' in stages:
                 probs += rows.check_matches('%s/codelen_matches_comp%d.dat' % (out_dir, comp), allf, matches, stats, kind, data)
+                if 'fisher' in stages and not probs:
+                    try:
+                        chains = rows.read_lines('%s/inv_subs_%d.txt' % (lib, comp))
+                    except FileNotFoundError:
+                        chains = None
+                    if chains is not None:
+                        probs += rows.check_identity_variants('%s/codelen_matches_comp%d.dat' % (out_dir, comp),
+                                                              '%s/codelen_comp%d_deriv.dat' % (out_dir, comp),
+                                                              '%s/derivs_comp%d.dat' % (out_dir, comp), allf, uniq, matches, chains, stats)
             if 'combine' in stages:
                 probs += rows.check_final('%s/final_%d.dat' % (out_dir, comp), allf, kind, data, stats)
         except FileNotFoundError as e:
